@@ -397,11 +397,15 @@ func runCheck(prop, tier string, seed int, update bool, overlay map[string][]byt
 		fmt.Println(l)
 	}
 	// replay + report
-	os.MkdirAll(filepath.Join(verifRoot, "replays"), 0o755)
+	outRoot := verifRoot
+	if altOut != "" {
+		outRoot = altOut
+	}
+	os.MkdirAll(filepath.Join(outRoot, "replays"), 0o755)
 	exit := 0
 	var violLines []string
 	for i, v := range real {
-		path := filepath.Join(verifRoot, "replays", fmt.Sprintf("%s-%d.json", prop, i+1))
+		path := filepath.Join(outRoot, "replays", fmt.Sprintf("%s-%d.json", prop, i+1))
 		confirmed := writeReplay(w, prop, v, path)
 		line := fmt.Sprintf("VIOLATION property=%s replay=%s", prop, path)
 		if !confirmed {
@@ -478,9 +482,9 @@ func runCheck(prop, tier string, seed int, update bool, overlay map[string][]byt
 	}
 	ev["coverage"] = cov
 	ev["assumptions"] = as
-	os.MkdirAll(filepath.Join(verifRoot, "evidence"), 0o755)
+	os.MkdirAll(filepath.Join(outRoot, "evidence"), 0o755)
 	data, _ := json.MarshalIndent(ev, "", " ")
-	os.WriteFile(filepath.Join(verifRoot, "evidence", prop+".json"), data, 0o644)
+	os.WriteFile(filepath.Join(outRoot, "evidence", prop+".json"), data, 0o644)
 
 	fmt.Printf("%s: %d obligations, %d discharged, %d functions, %d violations, load %.1fs, solvers %.1fs cpu, wall %.1fs\n",
 		prop, total, discharged, len(funcs), len(real), loadS, solverS, time.Since(t0).Seconds())
